@@ -123,7 +123,21 @@ func endsInBareGenerate(files map[string]string) bool {
 // $INCLUDE line that yields no record adds stack frames that are held until a record is found.
 const kRecursion = "directive-run-recursion"
 
-func init() { depthRelaxed = func() bool { return pbt.Known(kRecursion) } }
+// inProbe: probes run while pbt evaluates the known findings, so they must not ask pbt.Known
+// themselves; they use the flat depth limit.
+var inProbe bool
+
+func init() {
+	depthRelaxed = func() bool { return !inProbe && pbt.Known(kRecursion) }
+}
+
+func c07Probe(id string, run func() error) {
+	pbt.Probe(id, func() error {
+		inProbe = true
+		defer func() { inProbe = false }()
+		return run()
+	})
+}
 
 // kGenQuadratic: the text of a $GENERATE logical line is collected with s += token, which costs
 // time and allocation quadratic in the number of tokens.
@@ -535,6 +549,10 @@ var badLines = []string{
 	"bad.example. 99999999999 IN A 10.0.0.1",
 	"bad.example. 300 IN NOSUCHTYPE 10.0.0.1",
 	"bad.example. 300 IN TYPE65536 \\# 0",
+	"bad.example. 300 CLASS65536 A 10.0.0.1",
+	"bad.example. CLASS99999 300 A 10.0.0.1",
+	"bad.example. CLASSx A 10.0.0.1",
+	"bad.example. 300 TYPEx 10.0.0.1",
 	"bad.example. 300 IN TYPE1 \\# 5 01020304",
 	"bad.example. 300 IN A 10.0.0.1 trailing-garbage",
 	"bad.example. 300 IN A 10.0.0.1 )",
@@ -888,8 +906,9 @@ type gateCase struct {
 	Allowed bool   // for "via-generate" / "plain"
 	Prefix  string // valid lines before
 	Suffix  string // valid lines after
-	N       int64  // generate range end
+	N       int64  // generate: number of steps
 	Step    int64
+	Rem     int64 // generate: the stop lies Rem (< Step) beyond the last generated value
 }
 
 var gateKinds = []string{"self", "cycle", "chain", "missing", "not-allowed", "not-allowed-nil-fs-canary", "via-generate-not-allowed", "nested-generate", "generate-limit", "generate-in-include-depth", "generate-overflow",
@@ -908,6 +927,7 @@ func genGate(t *rapid.T) gateCase {
 	}
 	c.Step = rapid.SampledFrom([]int64{1, 2, 3, 7, 1000}).Draw(t, "step")
 	c.N = rapid.SampledFrom([]int64{65534, 65535, 65536, 65537, 70000, 131072}).Draw(t, "n")
+	c.Rem = rapid.Int64Range(0, c.Step-1).Draw(t, "rem")
 	return c
 }
 
@@ -920,9 +940,15 @@ func eachGate(emit func(gateCase)) {
 				emit(gateCase{Kind: k, Depth: d, Prefix: pre, Suffix: suf, N: 1, Step: 1})
 			}
 		case "generate-limit":
+			// both sides of the step-count limit, every kind of remainder
 			for _, n := range []int64{65535, 65536, 65537} {
-				for _, st := range []int64{1, 3} {
-					emit(gateCase{Kind: k, Prefix: pre, Suffix: suf, N: n, Step: st})
+				for _, st := range []int64{1, 2, 3, 7} {
+					for _, rem := range []int64{0, 1, st / 2, st - 1} {
+						if rem >= st || (rem == st/2 && (rem <= 1 || rem == st-1)) || (rem == 1 && st-1 == 1 && false) {
+							continue
+						}
+						emit(gateCase{Kind: k, Prefix: pre, Suffix: suf, N: n, Step: st, Rem: rem})
+					}
 				}
 			}
 		default:
@@ -1046,13 +1072,18 @@ func checkGate(c gateCase) error {
 		wantRecs, forbidden = np, "inner"
 	case "generate-limit":
 		// start 0, stop N-1 steps of Step: exactly N iterations
-		stop := (c.N - 1) * c.Step
-		body = fmt.Sprintf("$GENERATE 0-%d/%d g$ A 10.0.0.1\n", stop, c.Step)
+		rem := c.Rem
+		if rem < 0 || rem >= c.Step {
+			rem = 0
+		}
+		start := c.Step % 5 // 0..4: the range need not start at zero
+		stop := start + (c.N-1)*c.Step + rem
+		body = fmt.Sprintf("$GENERATE %d-%d/%d g$ A 10.0.0.1\n", start, stop, c.Step)
 		if c.N <= zm.MaxGenerateSteps {
 			wantErr = false
 			wantRecs = np + int(c.N) + strings.Count(c.Suffix, "\n")
 		} else {
-			wantRecs, forbidden = np, "g0."
+			wantRecs, forbidden = np, fmt.Sprintf("g%d.", start)
 		}
 	case "generate-overflow":
 		// the iterator reaches the largest int64 and must stop there instead of wrapping around
@@ -1323,7 +1354,7 @@ func init() {
 	// a $GENERATE whose template has a modifier that is rejected while the expansion is read (the
 	// error surfaces in the middle of a generated line) returns a record built from the truncated
 	// line together with the error
-	pbt.Probe(kGenErrRecord, func() error {
+	c07Probe(kGenErrRecord, func() error {
 		files := map[string]string{"g.db": "$GENERATE 0-1 host$ 300 A 10.0.0.1 ${0,0,D}\n"}
 		_, viol := runParser(files, parserCfg{File: "g.db", Origin: "example."}, nil)
 		if viol != nil {
@@ -1331,7 +1362,7 @@ func init() {
 		}
 		return nil
 	})
-	pbt.Probe(kSwallowed, func() error {
+	c07Probe(kSwallowed, func() error {
 		c := typeFaultCase{Sample: "LOC", Fault: "close-end"}
 		text, _ := faultText(c)
 		if err := evalTypeFault(c, text); err != nil {
@@ -1339,7 +1370,7 @@ func init() {
 		}
 		return nil
 	})
-	pbt.Probe(kGenFS, func() error {
+	c07Probe(kGenFS, func() error {
 		files := extraFiles()
 		files["top.db"] = "$GENERATE 1-1 $$INCLUDE " + canary() + "\n"
 		out, viol := runParser(files, parserCfg{File: "top.db", Origin: "example.", HasDefTTL: true, DefTTL: 5, Allowed: true, UseFS: true}, nil)
@@ -1351,7 +1382,7 @@ func init() {
 		}
 		return nil
 	})
-	pbt.Probe(kNestedInc, func() error {
+	c07Probe(kNestedInc, func() error {
 		files := extraFiles()
 		files[strings.TrimLeft(nestedFile(), "/")] = nestedBody
 		files["top.db"] = "$GENERATE 1-2 $$INCLUDE " + nestedFile() + "\n"
@@ -1364,7 +1395,7 @@ func init() {
 		}
 		return nil
 	})
-	pbt.Probe(kGenReadErr, func() error {
+	c07Probe(kGenReadErr, func() error {
 		txt := "$GENERATE 1-3 h$ 300 IN A 10.0.0.$ ; comment\nz 300 IN A 10.0.0.9\n"
 		cfg := parserCfg{File: "g.db", Origin: "example.", FaultFile: "g.db", FaultAt: strings.Index(txt, ";"), FaultKind: 0}
 		out, viol := runParser(map[string]string{"g.db": txt}, cfg, nil)
@@ -1376,7 +1407,7 @@ func init() {
 		}
 		return nil
 	})
-	pbt.Probe(kIncReadErr, func() error {
+	c07Probe(kIncReadErr, func() error {
 		files := extraFiles()
 		txt := "$INCLUDE inc1 sub ; comment\nz 300 IN A 10.0.0.9\n"
 		files["top.db"] = txt
@@ -1390,7 +1421,7 @@ func init() {
 		}
 		return nil
 	})
-	pbt.Probe(kRecursion, func() error {
+	c07Probe(kRecursion, func() error {
 		files := extraFiles()
 		files["top.db"] = strings.Repeat("$GENERATE 0-0 \n$INCLUDE empty.db\n", 500)
 		out, viol := runParserDepth(files, parserCfg{File: "top.db", Origin: "example.", Allowed: true, UseFS: true})
@@ -1402,7 +1433,7 @@ func init() {
 		}
 		return nil
 	})
-	pbt.Probe(kGenQuadratic, func() error {
+	c07Probe(kGenQuadratic, func() error {
 		files := map[string]string{"g.db": "$GENERATE 1-1 a TXT" + strings.Repeat(" a", 10000) + "\n"}
 		_, viol := runParser(files, parserCfg{File: "g.db", Origin: "example."}, nil)
 		if viol != nil {
@@ -1410,7 +1441,7 @@ func init() {
 		}
 		return nil
 	})
-	pbt.Probe(kGenEOF, func() error {
+	c07Probe(kGenEOF, func() error {
 		files := map[string]string{"g.db": "a.example. 300 A 10.0.0.1\n$GENERATE 0-0"}
 		_, viol := runParser(files, parserCfg{File: "g.db", Origin: "example."}, nil)
 		if viol != nil {
@@ -1425,7 +1456,7 @@ func init() {
 	pbt.RegisterEnum(pbt.Enum[gateCase]{Name: "gate-table", Exhaustive: true, Each: eachGate, Check: checkGate})
 	pbt.RegisterEnum(pbt.Enum[dirFaultCase]{Name: "directive-fault", Exhaustive: true, Each: eachDirFault, Check: checkDirFault})
 	// repaired by c430c6a: "$INCLUDE inc )" followed the include and then ended the zone silently
-	pbt.Probe("include-swallows-lexer-error", func() error {
+	c07Probe("include-swallows-lexer-error", func() error {
 		for _, a := range []bool{true, false} {
 			c := dirFaultCase{Directive: 0, Fault: 0, Pos: 2, Allowed: a}
 			text, _ := dirFaultText(c)
